@@ -187,6 +187,14 @@ def find_leaf_discovery(index):
     walkers = {fi.qualname: fi for fi in fns if need <= closure[fi.qualname][0]}
     # the innermost function that does all of it: none of the functions it calls does
     minimal = [fi for q, fi in walkers.items() if not (closure[q][1] & set(walkers)) and fi.name not in ("backward", "mtl_backward")]
+    if len(minimal) > 1:
+        # several functions walk the graph on their own: the discovery function is the one both entry points call (the defaulting of their parameter lists)
+        entries = [f for f in fns if f.name in ("backward", "mtl_backward")]
+        score = {fi.qualname: sum(1 for e_ in entries if fi in callees(e_)) for fi in minimal}
+        best = max(score.values())
+        top = [fi for fi in minimal if score[fi.qualname] == best]
+        if best > 0 and len(top) == 1:
+            return top[0].qualname
     return minimal[0].qualname if len(minimal) == 1 else None
 
 
